@@ -398,12 +398,19 @@ def check_list_nodesc(ctx, case):
     n = len(case['obs_lab'])
     measl = [gen.values(rng, (n, case['n_ch']), case['vkind']) for _ in range(n_ds)]
     dss = []
+    # half of the time every observation carries a unique trial name, and each dataset lists its trials in its own order:
+    # the combined object then follows the first dataset's order, each RDM's values under the right names
+    named = n >= 3 and bool(rng.integers(2))
+    orders = [[int(i) for i in rng.permutation(n)] for _ in range(n_ds)]
     for k, m in enumerate(measl):
-        ds = Dataset(m.copy(), descriptors={'subj': f'sub{k}'})
+        if named:
+            ds = Dataset(m.copy(), descriptors={'subj': f'sub{k}'}, obs_descriptors={'trial': [f't{j}' for j in orders[k]]})
+        else:
+            ds = Dataset(m.copy(), descriptors={'subj': f'sub{k}'})
         dss.append(ds)
     kw = kwargs_of(case)
     kw['descriptor'] = None
-    sig = sig_of(case, nodesc=True, n_ds=n_ds)
+    sig = sig_of(case, nodesc=True, n_ds=n_ds, named_trials=named)
     ok, rd = ctx.guarded('list_nodesc_vs_reference', sig, calc_rdm, dss,
                          data=lambda: witness(case, measl=measl), **kw)
     if not ok:
@@ -422,12 +429,21 @@ def check_list_nodesc(ctx, case):
             ctx.count('rejected_degenerate')
             continue
         mat = rd.get_matrices()[i]
+        if named:
+            names = [str(v) for v in rd.pattern_descriptors['trial']]
+            if sorted(names) != sorted(f't{j}' for j in range(n)):
+                ctx.fail('list_nodesc_vs_reference', sig, f'trial names of the combined RDMs: {names}',
+                         witness(case, measl=measl, orders=orders))
+                return
+            row = [orders[k].index(int(nm[1:])) for nm in names]     # row of dataset k that holds the trial at position a
+        else:
+            row = list(range(n))
         for a in range(n):
             for b in range(a + 1, n):
-                if not close(mat[a, b], want[frozenset((a, b))], RT, AT):
+                if not close(mat[a, b], want[frozenset((row[a], row[b]))], RT, AT):
                     ctx.fail('list_nodesc_vs_reference', sig, f'rdm {i} obs pair ({a},{b}): '
-                             f'{mat[a, b]!r} vs {want[frozenset((a, b))]!r}',
-                             witness(case, measl=measl))
+                             f'{mat[a, b]!r} vs {want[frozenset((row[a], row[b]))]!r}',
+                             witness(case, measl=measl, orders=orders if named else None))
                     return
 
 
@@ -550,6 +566,13 @@ def check_repeat_calls(ctx, case):
         steps.append(dict(method=gen.pick(rng, methods), nodesc=bool(rng.integers(2)),
                           remove_mean=bool(rng.integers(2))))
     for k, st in enumerate(steps):
+        if k and np.asarray(ds.measurements).dtype.kind == 'f' and rng.integers(2):
+            # the user corrects some measurements in place between two calls (same object, same shape, same labels): the
+            # next RDM is that of the numbers the dataset holds now
+            rows = rng.choice(orig.shape[0], size=max(1, orig.shape[0] // 2), replace=False)
+            ds.measurements[rows] += np.abs(rng.standard_normal((len(rows), orig.shape[1]))) + 0.5
+            orig = np.array(ds.measurements, dtype=float, copy=True)
+            ctx.count('measurements_edited_between_calls')
         sig = dict(method=st['method'], nodesc=st['nodesc'], remove_mean=st['remove_mean'],
                    step=k, prev=steps[k - 1]['method'] if k else 'none', values=vk,
                    narrow_int=case['vkind'] in ('int8', 'uint8', 'bool'))
